@@ -291,6 +291,10 @@ def r46(ctx, res):
         if not ret:
             continue  # reported by R4.1
         if has_unknown(ret):
+            if any(f.rule == "R4.2" for f in res.findings):
+                # the unresolved value is the attribute / call anomaly that R4.2 already reports
+                res.ob("R4.6", inter.where(), "(%s, %s)" % (ta, tb), False, "result type unresolved (see R4.2 finding)")
+                continue
             raise AnalysisError("result type of intersection(%s, %s) is not resolved: %s" % (ta, tb, show(ret)))
         extra = sorted(str(t) for t in ret if str(t) not in d)
         ok = not extra
@@ -442,6 +446,14 @@ def _eq_correlation(ctx, f: FunctionInfo, var: str, T: str, raise_stmt, case: st
         return False, "statement not in CFG"
     dom = g.dominating_edges(nid[0])
     if not any(l == "F" and txt(g.nodes[c].ast) in eqs for c, _, l in dom):
+        rx, ry = root_name(X), root_name(Y)
+        for c, _, l in dom:
+            nm = {n.id for n in ast.walk(g.nodes[c].ast) if isinstance(n, ast.Name)}
+            if rx in nm and ry in nm:
+                raise AnalysisError(
+                    "%s: `%s` relates the operands of `%s` but is not the recognised idiom `%s == %s` (false edge); "
+                    "cannot decide whether %s can be %s here" % (
+                        f.where(g.nodes[c].ast), txt(g.nodes[c].ast), txt(d.value), txt(X), txt(Y), var, T))
         return False, "not on the false edge of `%s == %s`" % (txt(X), txt(Y))
     tx = {str(t) for t in eng.types_at(f, X)}
     ty = {str(t) for t in eng.types_at(f, Y)}
@@ -592,9 +604,13 @@ def r47(ctx, res):
                             residual.append(t)
                     bad = []
                     facts = []
-                    for t in residual:
+                    for t in list(residual):
                         if is_unknown(t):
+                            if any(f_.rule == "R4.2" for f_ in res.findings):
+                                residual.remove(t)  # the anomaly R4.2 already reports
+                                continue
                             raise AnalysisError("%s: type of %s is unresolved" % (where, var))
+                    for t in residual:
                         ok, why = _eq_correlation(ctx, f, var, str(t), R, "A")
                         (facts if ok else bad).append("%s: %s" % (t, why))
                     if not bad:
@@ -688,6 +704,8 @@ def r48(ctx, res):
             facts = []
             for cont, el in sorted(pairs, key=str):
                 if is_unknown(cont) or is_unknown(el):
+                    if any(f_.rule == "R4.2" for f_ in res.findings):
+                        continue
                     raise AnalysisError("%s: operand type of `%s` unresolved" % (f.where(cmp_), txt(cmp_)))
                 if not eng.is_class_tag(cont):
                     facts.append("%s in builtin container" % (el,))
